@@ -357,6 +357,20 @@ package utils
 //@   requires wfS(s) && n != nil && n.Func != nil
 //@   loop 1 invariant wfS(s) && n == old(n)
 //@   loop 2 invariant wfS(s) && n == old(n)
+// absent() / absent_over_time(): only the labels of the selector's equality matchers come back, and all of them
+//@   ghost eq []string
+//@   after call labelsFromSelectors#5 set eq = result
+//@   at call labelsFromSelectors#5 assert len(arg0) == 1 && arg0[0] == labels.MatchEqual && arg1 == s.Selector
+//@   loop 1 invariant 0 <= iter1 && iter1 <= len(eq) && s.FixedLabels && sepS(s, eq)
+//@   loop 1 invariant subset(s.IncludedLabels, eq)
+//@   loop 1 invariant subset(s.GuaranteedLabels, eq)
+//@   loop 1 invariant forall k int :: 0 <= k && k < iter1 ==> in(s.IncludedLabels, eq[k]) && in(s.GuaranteedLabels, eq[k])
+//@   ensures (n.Func.Name == "absent" || n.Func.Name == "absent_over_time") ==> result.FixedLabels
+//@   ensures (n.Func.Name == "absent" || n.Func.Name == "absent_over_time") ==> subset(result.IncludedLabels, eq)
+//@   ensures (n.Func.Name == "absent" || n.Func.Name == "absent_over_time") ==> subset(result.GuaranteedLabels, eq)
+//@   ensures (n.Func.Name == "absent" || n.Func.Name == "absent_over_time") ==> subset(eq, result.IncludedLabels)
+// functions that return a scalar or a label-less vector
+//@   ensures (n.Func.Name == "scalar" || n.Func.Name == "pi" || n.Func.Name == "time" || n.Func.Name == "vector") ==> result.FixedLabels && len(result.IncludedLabels) == 0 && len(result.GuaranteedLabels) == 0
 //@   ghost lit string
 //@   ghost litOK bool
 //@   after call stringLiteralValue set lit = result0
@@ -469,3 +483,17 @@ package utils
 //@   at call append#9 assert litOK && lit != "__name__" ==> canHave(s, lit)
 //@   at call append#11 assert sameLists(s, res[iter11-1]) && s.FixedLabels == res[iter11-1].FixedLabels
 //@   at call append#12 assert sameLists(s, res[iter12-1]) && s.FixedLabels == res[iter12-1].FixedLabels
+
+// Function calls: every source analysed for a vector / matrix argument is handed to parsePromQLFunc with its label
+// lists untouched (only type, operation, call and position are set); a call without such an argument is analysed
+// starting from an empty source.
+//@ func parseCall [C04]
+//@   option elemlinks
+//@   assumed requires
+//@   requires n != nil && n.Func != nil
+//@   ghost res []Source
+//@   after call walkNode set res = result
+//@   loop 2 assumed invariant forall j int :: iter2 <= j && j < len(res) ==> wfS(res[j]) && freshLists(res[j])
+//@   loop 2 invariant 0 <= iter2 && iter2 <= len(res) && n == old(n)
+//@   at call parsePromQLFunc#1 assert sameLists(arg0, res[iter2-1]) && arg0.FixedLabels == res[iter2-1].FixedLabels && arg1 == expr && arg2 == n
+//@   at call parsePromQLFunc#2 assert len(arg0.IncludedLabels) == 0 && len(arg0.ExcludedLabels) == 0 && len(arg0.GuaranteedLabels) == 0 && !arg0.FixedLabels && arg2 == n
